@@ -179,6 +179,12 @@ fn wrap(mut p: P, it: &J) -> P {
             })
             .boxed()
         }
+        // `collect::<Vec<_>>()` is the same repetition through another entry point
+        "many" if b(it, "via_collect") => {
+            let o = p.collect::<Vec<Val>>();
+            let o = if catch { o.catch() } else { o };
+            o.map(Val::List).boxed()
+        }
         "many" => {
             let o = p.many();
             let o = if catch { o.catch() } else { o };
